@@ -142,6 +142,18 @@ def s15_position_tracking(ctx):
                 ret_ok = bool(rs) and all(o2 is not None and peel(o2)[0] in ("arg", "var") and not origin_mentions(o2, lambda y: y[0] == "upvar") for o2 in rs)
         r.add(f, "pos += the count the inner %s returned" % meth, good, short_span(b.span))
         r.add(f, "returns that count", ret_ok or b.def_kind != "AssocFn" or good, short_span(b.span))
+    # every path by which data reaches the inner writer/reader is one whose counting was checked
+    # above: the io traits' provided methods (write_all, read_exact, …) all go through write/read
+    # unless the impl overrides them
+    allowed = {"std::io::Write": {"write", "flush"}, "std::io::Read": {"read"}, "std::io::Seek": {"seek"}}
+    import re as _re
+
+    for x in shipped_bodies(prog):
+        m = _re.match(r"^<storage::bitcask::bufio::(Buf\w+WithPos)<\w+> as (std::io::\w+)>::(\w+)$", x.path)
+        if not m or m.group(2) not in allowed:
+            continue
+        ok = m.group(3) in allowed[m.group(2)]
+        r.add("storage::bitcask::bufio::%s" % m.group(1), "%s::%s is implemented" % (m.group(2).split("::")[-1], m.group(3)), ok, short_span(x.span), "" if ok else "an overridden %s bypasses the counted write()/read(): show that it counts exactly the bytes that were transferred, also when it fails part-way" % m.group(3))
     for ty in ("BufWriterWithPos", "BufReaderWithPos"):
         pb = prog.one("storage::bitcask::bufio::%s::pos" % ty)
         rs = [ret_origin(pb, d) for c, d, rb in ret_classes(pb, 0, lambda e: e.kind == "unwind")]
@@ -270,33 +282,52 @@ def s17_sign_discipline(ctx):
         r.unrec(f, "branch on the sign flag", short_span(b.span), "no `if is_positive` found")
         return r
     bb, info, flag = sw
-    # which tag bytes set the flag to what
-    sign_map = {}
-    for sb in sorted(b.live_blocks()):
-        si = b.switch_info(sb)
-        if si and si["kind"] == "int" and origin_mentions(si["on"], lambda x: x[0] == "call" and x[1] and x[1].endswith("peek_byte")):
-            for e in b.succ[sb]:
-                labs = si["arms"].get(e.dst, [])
-                # constant assigned to the flag in the blocks exclusive to this arm before they join
-                q = deque([e.dst])
-                seen = set()
-                val = None
-                while q and val is None:
-                    x = q.popleft()
-                    if x in seen:
-                        continue
-                    seen.add(x)
-                    for st in b.blocks[x]["stmts"]:
-                        if st["k"] == "assign" and not st["pl"]["p"] and st["pl"]["l"] == flag:
-                            val = const_int(b.origin_rvalue(st["rv"]))
-                    if val is None:
-                        for e2 in b.succ[x]:
-                            if e2.kind != "unwind":
-                                q.append(e2.dst)
-                for lab in labs:
-                    sign_map[lab] = val
-    want = {"45": 0, "43": 1, "otherwise": 1}
-    r.add(f, "'-' ⇒ negative, '+' / none ⇒ positive", sign_map == want, where(b, bb), "sign bytes → flag: %s" % sign_map)
+    # which sign byte sets the flag to what: walk from the entry to the flag test with the byte that
+    # peek_byte returned fixed to '-', '+' and a digit; switches on that byte (a `match` on it or
+    # `== b'-'` tests) are decided, every other switch before the flag test must be a `?`
+    is_peek = lambda x: x[0] == "call" and x[1] and x[1].endswith("peek_byte")
+
+    def flag_for(v):
+        cur, val, steps = 0, None, 0
+        while cur != bb and steps < 400:
+            steps += 1
+            for st in b.blocks[cur]["stmts"]:
+                if st["k"] == "assign" and not st["pl"]["p"] and st["pl"]["l"] == flag:
+                    val = const_int(b.origin_rvalue(st["rv"]))
+            t = b.term(cur)
+            si = b.switch_info(cur)
+            nxt = None
+            if si is None:
+                outs = [e.dst for e in b.succ[cur] if e.kind != "unwind"]
+                nxt = outs[0] if len(outs) == 1 else None
+            elif si["kind"] == "int" and origin_mentions(si["on"], is_peek):
+                for e in b.succ[cur]:
+                    labs = si["arms"].get(e.dst, [])
+                    if str(v) in labs:
+                        nxt = e.dst
+                if nxt is None:
+                    nxt = si.get("otherwise")
+            elif si["kind"] == "bool":
+                o = peel_var(si["on"])
+                if o[0] == "bin" and o[1] in ("Eq", "Ne") and (origin_mentions(o[2], is_peek) or origin_mentions(o[3], is_peek)):
+                    c = const_int(o[3]) if origin_mentions(o[2], is_peek) else const_int(o[2])
+                    if c is not None:
+                        truth = (v == c) if o[1] == "Eq" else (v != c)
+                        for e in b.succ[cur]:
+                            if si["arms"].get(e.dst) == [truth]:
+                                nxt = e.dst
+            elif si["kind"] == "variant":
+                for e in b.succ[cur]:
+                    if si["arms"].get(e.dst) in (["Continue"], ["Ok"]):
+                        nxt = e.dst
+            if nxt is None:
+                return "?"
+            cur = nxt
+        return val if cur == bb else "?"
+
+    sign_map = {"'-'": flag_for(45), "'+'": flag_for(43), "digit": flag_for(48)}
+    want = {"'-'": 0, "'+'": 1, "digit": 1}
+    r.add(f, "'-' ⇒ negative, '+' / none ⇒ positive", sign_map == want, where(b, bb), "sign byte → flag: %s" % sign_map)
     t_dst = [e.dst for e in b.succ[bb] if info["arms"].get(e.dst) == [True]]
     f_dst = [e.dst for e in b.succ[bb] if info["arms"].get(e.dst) == [False]]
     rets = {x for x in b.live_blocks() if b.term(x)["k"] == "return"}
